@@ -34,7 +34,7 @@ type c08Op struct {
 
 func c08Ops() []c08Op {
 	var ops []c08Op
-	nonces := [][]byte{nil, {}, {0x42}, univ.Pat(32, 1), univ.Pat(64, 2), univ.Pat(65, 3)}
+	nonces := [][]byte{nil, {}, {0x42}, {0x43}, univ.Pat(32, 1), univ.Pat(32, 9), univ.Pat(64, 2), univ.Pat(65, 3)}
 	for _, el := range ref.EncrKeyLens {
 		for ii := -1; ii < 3; ii++ {
 			for ni, n := range nonces {
@@ -57,7 +57,25 @@ func c08Fresh(prfIdx, pat int) (*security.IKESAKey, []byte) {
 	return sa, want.SKd
 }
 
+// callerBuf models a caller that keeps one nonce buffer per length and refills it in place for every
+// derivation (the library must not remember the caller's slice across calls).
+var callerBuf = map[int][]byte{}
+
+func inCallerBuffer(nonce []byte) []byte {
+	if len(nonce) == 0 {
+		return nonce
+	}
+	b, ok := callerBuf[len(nonce)]
+	if !ok {
+		b = make([]byte, len(nonce))
+		callerBuf[len(nonce)] = b
+	}
+	copy(b, nonce)
+	return b
+}
+
 func c08Apply(sa *security.IKESAKey, op c08Op) (string, error) {
+	nonce := inCallerBuffer(op.nonce)
 	ch := &security.ChildSAKey{EncrKInfo: encr.StrToKType(univ.EncrName(op.encrLen))}
 	if op.integIdx >= 0 {
 		ch.IntegKInfo = integ.StrToKType(univ.IntegName(ref.Integs[op.integIdx]))
@@ -68,7 +86,7 @@ func c08Apply(sa *security.IKESAKey, op c08Op) (string, error) {
 	if ch.EncrKInfo == nil {
 		return "", fmt.Errorf("registry lacks child encryption algorithm")
 	}
-	if err := ch.GenerateKeyForChildSA(sa, op.nonce); err != nil {
+	if err := ch.GenerateKeyForChildSA(sa, nonce); err != nil {
 		return "", err
 	}
 	return fmt.Sprintf("ei=%x ai=%x er=%x ar=%x", ch.InitiatorToResponderEncryptionKey, ch.InitiatorToResponderIntegrityKey,
@@ -88,7 +106,7 @@ func init() {
 	engine.Register(&engine.Check{
 		ID:    "C08",
 		Level: "model_checking",
-		Rule: "explicit-state search over one real IKESAKey object per PRF and SK_d pattern: ops = derive(cfg, nonce) for 3 ESP key sizes × {no integrity, MD5-96, SHA1-96, SHA2-256-128} × nonces {nil, empty, 1, 32, 64, 65 octets} (72 ops); state = canonical dump of the whole SA object graph (hash states through their marshalled form); successors by replay from a fresh object; search to closure. " +
+		Rule: "explicit-state search over one real IKESAKey object per PRF and SK_d pattern: ops = derive(cfg, nonce) for 3 ESP key sizes × {no integrity, MD5-96, SHA1-96, SHA2-256-128} × nonces {nil, empty, 2 × 1 octet, 2 × 32 octets, 64, 65 octets} passed in a caller buffer that is refilled in place (96 ops); state = canonical dump of the whole SA object graph (hash states through their marshalled form); successors by replay from a fresh object; search to closure. " +
 			"Oracle on every transition: the four keys equal the reference slices of prf+(SK_d, Ni|Nr) in the order ei, ai, er, ar and equal what a freshly built copy of the SA yields. distinct_nontrivial = distinct (state, op) transitions whose keys were compared",
 		Assumptions: []string{"closure of the concrete state space means the result holds for derivation histories of every length over this op alphabet (equal dumps have equal futures: the dump contains every field reachable from the object)"},
 		Run:         runC08,
